@@ -10,6 +10,7 @@ import numpy as np
 from harness import util
 from harness.gen import datasets as G
 from harness.gen import tri as T
+from harness.gen import c14_extra6 as X6      # extent / size classes (see the block "extent and size" below)
 
 warnings.simplefilter('ignore')
 
@@ -24,7 +25,18 @@ REQUIRED = [
     'Ems.C14.fan_cover', 'Ems.C14.fan_partition', 'Ems.C14.strictConvex_hyps', 'Ems.C14.ear_succeeds',
     'Ems.C14.cell_count', 'Ems.C14.cell_area', 'Ems.C14.dataset_cell_triangles',
     'Ems.C14.convex_path_partition', 'Ems.C14.total_triangles_spec',
+    # about the term translated from the source of _triangulate_polygons_by_length (harness/trans_trifan.py)
+    'Ems.C14.fan_pipeline_translated', 'Ems.C14.fan_pipeline_shape', 'Ems.C14.fan_pipeline_entry',
+    'Ems.C14.fan_pipeline_spec', 'Ems.C14.fan_pipeline_count_area',
+    # about the bookkeeping translated from the source of triangulate_dataset (harness/trans_tridataset.py)
+    'Ems.C14.dataset_translated', 'Ems.C14.dataset_loops_generated', 'Ems.C14.dataset_total_generated',
+    'Ems.C14.dataset_helper_generated', 'Ems.C14.dataset_table_generated', 'Ems.C14.dataset_table_wellformed',
+    'Ems.C14.dataset_loops_spec', 'Ems.C14.dataset_loops_agree_with_model', 'Ems.C14.dataset_total_spec',
+    # the triangulation does not depend on the unit / place of the coordinates (Props/C14Extent.lean)
+    'Ems.C14.split_extent_invariant', 'Ems.C14.convex_path_partition_extent', 'Ems.C14.concave_path_extent',
+    'Ems.C14.area_clause_extent',
 ]
+EXTRA_MODULES = ['EmsModel.Props.C14Src', 'EmsModel.Props.C14Extent']
 RULE = ('(a) datasets of all five convention classes (holes = cells without geometry; UGRID meshes from '
         'gen_mesh mix triangles..octagons, concave L / pentagon faces, mid-edge collinear nodes, both windings, '
         'random start vertex); CF 1-D grids also with STORED bounds that are not contiguous — footprints leaving gaps '
@@ -46,13 +58,32 @@ RULE = ('(a) datasets of all five convention classes (holes = cells without geom
         'function of the cells alone). Model input is the generator\'s vertex '
         'list, never read back from emsarray; a dataset whose emsarray polygons differ from the ground truth is '
         'skipped and counted. Non-trivial = a cell that is concave, has a collinear vertex, has >= 5 sides, or an '
-        'invalid ring; distinct = distinct vertex sequence up to translation.')
+        'invalid ring; distinct = distinct vertex sequence up to translation. '
+        '(f) EXTENT: meshes of 36 targeted cells (concave templates at a random start vertex / winding, the valid stream of (b), '
+        'and cells 2^8..2^24 units across with a SHALLOW reflex corner: one edge pushed inward by 1..3 units at its midpoint) mapped '
+        'through q -> origin + 2^exp q, exp in -40..-24 (tiny), -23..-8 (small), 8..20 (large), 0 (shallow notch), integer origin — '
+        'exact in binary floating point; 4 per quick run (one of each class), 24 thorough, every other one with a call history; '
+        'judged by the same oracle in exact fractions and sent to the model as the same rationals. '
+        '(g) SIZE: a CF grid and an unstructured mesh (quadrilaterals, triangles in either diagonal, a few concave dart + kite '
+        'tiles; every face from a random start vertex, wound either way, faces stored in shuffled order) with 2^15..2^17 cells of '
+        'one number of sides (thorough: ..2^18, 6 datasets), at a random extent, built with numpy from a compact recipe; every '
+        'clause of the oracle in exact int64 arithmetic on the generator\'s lattice (concave cells through the per-cell oracle), '
+        'a second call after an in-place edit, 4 windows of 12 consecutive cells compared with the model; a failing dataset is '
+        'shrunk by bisection on its number of rows. (f) and (g) draw from a random stream of their own.')
 TRUSTED = [
     'GEOS (shapely): convex_hull vertex count, LineString.covered_by(Polygon), LinearRing.intersection(LineString).equals(MultiPoint) '
     '— appear in the theorems as arbitrary functions isConvex / isEar; the driver instantiates them with exact rational tests '
     '(Core/TriangulateGeom.lean) that are compared with GEOS on every generated polygon (ops `ears`, `convex`, and through `tri`)',
     'pandas MultiIndex.drop_duplicates keeps first occurrences; DataFrame.join on (x, y) is an exact-equality lookup',
     'direct oracle: shapely covers / relate_pattern on integer and dyadic coordinates (robust predicates) for inside / overlap; areas in fractions.Fraction',
+    'big datasets (g): numpy int64 arithmetic on lattice coordinates recovered from the returned floats by (v - origin) / 2^exp (exact for '
+    'every true coordinate; anything else is reported as a foreign vertex); triangle-in-convex-cell by edge half-planes, overlap by a separating edge',
+    'fan path, translated from the source: harness/trans_trifan.py (ast of _triangulate_polygons_by_length -> NpExpr term Gen.triFanTriangles; '
+    'numpy.repeat along an axis statically of length 1 rendered as broadcast_to) and the numpy semantics of Core/NpExpr.lean — '
+    'cross-checked on every run: driver op `fanpipe` evaluates the generated term on the generator\'s closed rings and is compared value by value with the real function',
+    'bookkeeping of triangulate_dataset, translated from the source: harness/trans_tridataset.py (ast -> Gen.triDatasetLoops / Total / AddBody / Table) and the meaning '
+    'given to numpy.flatnonzero / unique / boolean comparison / a[idx] = 0 / zip in Core/TriDatasetSrc.lean — cross-checked on every run: driver op `tdfaces` runs the '
+    'generated loops on the ground-truth cells and is compared with the order and the cell indexes of the blocks the real code writes; pandas drop_duplicates / join semantics stay trusted',
 ]
 ASSUMPTIONS = [
     'cell polygons are simple, without repeated vertices and without interior rings (what every emsarray convention produces); '
@@ -376,8 +407,12 @@ def truth_matches(c, cells) -> bool:
 
 
 def single_recipe(poly) -> dict:
-    return T.pack([[(int(x), int(y)) if Fraction(x).denominator == 1 and Fraction(y).denominator == 1 else (x, y)
-                    for x, y in poly]], enc={'start_index': 0, 'fill': 'nan'})
+    def num(v):
+        # integers as int, binary fractions as the float that IS that fraction (a recipe must survive JSON)
+        if Fraction(v).denominator == 1:
+            return int(v)
+        return float(v) if Fraction(float(v)) == Fraction(v) else v
+    return T.pack([[(num(x), num(y)) for x, y in poly]], enc={'start_index': 0, 'fill': 'nan'})
 
 
 # kinds of stored CF 1-D bounds under which neighbouring cells do not share their corners
@@ -525,10 +560,219 @@ def do_dataset(ctx, recipe: dict, items: list, label: str, labels: list | None =
             # the hypotheses of fan_oriented / fan_no_overlap / fan_inside hold wherever the fan path is taken
             items.append((f'fansorted {ring_line(p)}', '1', dict(d, op='fansorted')))
             items.append((f'convexcell {ring_line(p)}', '1', dict(d, op='convexcell')))
+    # >>> bookkeeping translated from the source (harness/trans_tridataset.py): the generated loops, run by the driver on the
+    # ground-truth cells, must write the blocks in the order and with the cell indexes the real code reports
+    n_td = getattr(ctx, '_c14_tdfaces', 0)
+    ctx._c14_tdfaces = n_td + 1
+    if label != 'packed' or n_td % 3 == 0:
+        items.append(('tdfaces ' + cells_line(cells), tdfaces_impl(res), {'recipe': recipe, 'op': 'tdfaces'}))
+    # <<<
     # LAST (it edits `res` in place): the same dataset object is triangulated again
     if history:
         ctx.guarded(lambda: do_history(ctx, recipe, built, cells, res, first_canon, history, items),
                     {'recipe': recipe, 'op': 'tri', 'history': history})
+
+
+# ---------------------------------------------------------------------------
+# >>> fan pipeline translated from the source (harness/trans_trifan.py -> Gen/TriFanSrc.lean): cross-check of the
+# translator.  The driver op `fanpipe` evaluates the GENERATED term on the closed rings of a batch of polygons of one
+# length (ground truth of the generator); it is compared with what the real `_triangulate_polygons_by_length` returns
+# for the shapely polygons of the same vertex lists, value by value and in order.
+
+def fanpipe_line(polys) -> str:
+    rows = [v for p in polys for v in list(p) + [p[0]]]
+    return f'fanpipe {len(polys)} {len(polys[0]) + 1} ' + ';'.join(pt_str(v) for v in rows)
+
+
+def fanpipe_impl(polys) -> str:
+    import shapely
+    from emsarray.operations import triangulate as M
+    arr = np.empty(len(polys), dtype=object)
+    arr[:] = [shapely.Polygon([(float(x), float(y)) for x, y in p]) for p in polys]
+    try:
+        out = np.asarray(M._triangulate_polygons_by_length(arr))
+    except Exception:  # noqa: numpy / shapely refused; the model says ERR where the term does not evaluate
+        return 'ERR'
+    vals = ','.join('-' if v != v else util.rat_str(float(v)) for v in out.ravel().tolist())
+    return f"{','.join(str(d) for d in out.shape)}:{vals}"
+
+
+def fanpipe_cases(ctx, rng, items: list) -> None:
+    for _ in range(ctx.budget(40, 300)):
+        vc = rng.choice([3, 3, 4, 4, 4, 5, 5, 6, 7, 8])
+        polys = []
+        for _try in range(rng.randint(1, 5)):
+            p = T.convex_poly(rng, vc, span=rng.choice([4, 7, 12]))
+            if len(p) != vc:
+                continue
+            if rng.random() < 0.5:
+                p = p[::-1]
+            s = rng.randrange(vc)
+            dx, dy = rng.randint(-9, 9), rng.randint(-9, 9)
+            polys.append([(x + dx, y + dy) for x, y in p[s:] + p[:s]])
+        if not polys:
+            continue
+        ctx.count(f'fanpipe:{vc}-gon:x{len(polys)}')
+        desc = {'op': 'fanpipe', 'polys': [[list(v) for v in p] for p in polys]}
+        ctx.guarded(lambda: items.append((fanpipe_line(polys), fanpipe_impl(polys), desc)), desc)
+
+
+def tdfaces_impl(res) -> str:
+    """the cell indexes `triangulate_dataset` returned, run-length encoded in the order written, and the number of rows"""
+    import itertools
+    faces = [int(x) for x in res[2]]
+    return f'total={len(res[1])} blocks=' + ','.join(f'{k}:{len(list(g))}' for k, g in itertools.groupby(faces))
+# <<< fan pipeline / bookkeeping translated from the source
+
+
+# ---------------------------------------------------------------------------
+# >>> extent and size (generators: harness/gen/c14_extra6.py)
+# EXTENT: the targeted cells of (b) under a similarity q -> origin + 2**exp * q (cells 2**-40 .. 2**20 units across) and
+# large cells with a shallow reflex corner; plain UGRID recipes, judged like every other dataset (do_dataset: per-cell
+# oracle in exact fractions, model on the same rationals).
+# SIZE: datasets with 2**15 .. 2**17 (thorough 2**18) cells of one number of sides, expanded with numpy from a compact
+# recipe (op 'big').  Judged by X6.judge_big — the clauses of `oracle` in exact int64 arithmetic on the generator's
+# lattice; the few concave cells go through `oracle` itself — then called again after the caller edited the arrays in
+# place, and windows of 12 consecutive cells are compared with the model (`tri` on the window's cells against the part
+# of the real output that names them).
+
+def big_failures(big, history=None) -> list:
+    """-> [(signature, cell, message)] of the calls of one history (later calls: `repeat-call:<clause>`).
+    Every call is judged before the caller edits what it returned."""
+    found = []
+    res, err = raw_call(big.ds)
+    done = []
+    steps = [None] + list(history or [])
+    for n, step in enumerate(steps, start=1):
+        if step is not None:
+            done.append(f"{step.get('edit')}:{apply_edit(res, step)}")
+            res, err = raw_call(big.ds)
+        pre = '' if n == 1 else 'repeat-call:'
+        note = '' if n == 1 else (f'call {n} on one dataset object, after the caller edited its earlier results in place '
+                                  f'({", ".join(done)}): ')
+        if res is None:
+            found.append((pre + 'raises-on-valid-cell', None,
+                          note + f'triangulate_dataset raised {err} on a dataset of {big.ncell} simple polygons'))
+            break
+        try:
+            fails = X6.judge_big(big, res, slow_oracle=oracle)
+        except Exception as e:  # noqa: whatever came back is not three arrays of the documented shapes
+            fails = [('malformed-result', None, f'result cannot be read as (vertices, triangles, cell indexes): {type(e).__name__}: {e}')]
+        found += [(pre + s, k, note + m) for s, k, m in fails]
+        if fails:
+            break
+    return found
+
+
+def shrink_big(recipe: dict, sig: str, history):
+    """fewer rows of the same recipe that fail the same clause (bisection; the recipe of a big dataset is compact)"""
+    key = 'ny' if recipe['conv'] == 'big-cf1d' else 'h'
+    lo, hi, best = 0, recipe[key], None
+    for _ in range(7):
+        mid = (lo + hi) // 2
+        if mid <= lo:
+            break
+        r1 = dict(recipe, **{key: mid})
+        try:
+            b1 = X6.build_big(r1)
+            if not X6.big_truth_matches(b1, b1.ds.ems.polygons):
+                break
+            again = [m for s, _, m in big_failures(b1, history) if s == sig]
+        except Exception:  # noqa: the smaller dataset is only a candidate
+            break
+        if again:
+            hi, best = mid, (r1, again[0])
+        else:
+            lo = mid
+    return best
+
+
+def do_big(ctx, recipe: dict, items: list, history, wrng) -> None:
+    big = X6.build_big(recipe)
+    try:
+        same = X6.big_truth_matches(big, big.ds.ems.polygons)
+    except Exception:
+        same = False
+    if not same:
+        ctx.count(f"skipped:{recipe['conv']}:polygons-differ-from-ground-truth")
+        return
+    ctx.count(f"dataset:{recipe['conv']}")
+    ctx.count(f"big:{recipe['conv']}:cells>=2^{big.ncell.bit_length() - 1}:extent 2^{recipe['exp']}")
+    for n, (idx, _) in big.groups.items():
+        ctx.count(f'big:{n}-sided convex cells', len(idx))
+        ctx.nontrivial(('big', recipe['conv'], n, len(idx).bit_length()))
+    ctx.count('big:concave cells', len(big.slow))
+    fails = big_failures(big, history)
+    ctx.evaluated(1 + len(history or []))
+    seen = set()
+    for sig, k, msg in fails:
+        if sig in seen:
+            continue
+        seen.add(sig)
+        hist = list(history or []) if sig.startswith('repeat-call:') else []     # a failure of the first call needs no history
+        d = {'recipe': recipe, 'op': 'big', 'history': hist}
+        if getattr(ctx, '_c14_bigshrunk', 0) < 2:
+            ctx._c14_bigshrunk = getattr(ctx, '_c14_bigshrunk', 0) + 1
+            small = shrink_big(recipe, sig, hist)
+            if small is not None:
+                d, msg = {'recipe': small[0], 'op': 'big', 'history': hist}, small[1]
+        ctx.oracle_fail(sig, d, msg)
+    # windows of the (last) answer against the model, which is a function of the cells alone
+    res, _err = raw_call(big.ds)
+    if res is None:
+        return
+    w = 12
+    last = max(1, big.ncell - w)
+    for start in sorted({0, last, wrng.randrange(last), wrng.randrange(last)}):
+        cells = X6.window_cells(big, start, w)
+        sub = X6.window_result(res, start, w)
+        canon = 'ERR:index' if sub is None else canon_impl(sub)
+        items.append(('tri ' + cells_line(cells), canon, {'recipe': recipe, 'op': 'big', 'window': [start, w],
+                                                          'history': history or []}))
+
+
+def extent_and_size_cases(ctx, one, items: list) -> None:
+    import random
+    # a stream of its own: the random stream of every other case stays what it was
+    rng = random.Random(f'C14:{ctx.seed}:{int(ctx.searching)}:extent-size')
+    classes = ['tiny', 'notch', 'small', 'large', 'tiny', 'small']
+    for d in range(min(ctx.budget(4, 24), 36)):
+        cls = classes[d % len(classes)]
+        sim = X6.random_similarity(rng, cls)
+        polys, labels = X6.extent_polys(rng, cls, 36)
+        recipe = X6.extent_recipe(polys, sim, rng)
+        ctx.count(f"extent:{cls}:2^{sim['exp']}")
+        one(recipe, items, f'extent:{cls}', labels, history=random_history(rng) if d % 2 else None)
+    kinds = ['cf1d', 'tiles']
+    for d in range(min(ctx.budget(2, 6), 8)):
+        kind = kinds[d % 2]
+        # quick: the unstructured mesh has 2**15 .. 2**16 quadrilaterals (and more triangles than that)
+        n = int(2 ** rng.uniform(15.02, 16)) if (kind == 'tiles' and not ctx.thorough) else None
+        recipe = X6.random_big_recipe(rng, kind, ctx.thorough, n_cells=n)
+        history = random_history(rng) if d % 2 == 0 else None
+
+        def case(recipe=recipe, history=history):
+            do_big(ctx, recipe, items, history, rng)
+        ctx.guarded(case, {'recipe': recipe, 'op': 'big', 'history': history or []})
+
+
+def run_one_big(ctx, inp: dict) -> dict:
+    big = X6.build_big(inp['recipe'])
+    r = inp['recipe']
+    out = {'dataset': f"{r['conv']}: {big.ncell} cells ("
+                      + ', '.join(f'{len(idx)} convex {n}-sided' for n, (idx, _) in big.groups.items())
+                      + f", {len(big.slow)} concave), coordinates = {r['origin']} + 2**{r['exp']} * lattice"}
+    fails = big_failures(big, inp.get('history'))
+    out['oracle'] = [f'{s}: {m}' for s, _, m in fails][:6] or 'no clause of C14 fails'
+    if inp.get('window') and ctx.driver:
+        start, w = inp['window']
+        res, _err = raw_call(big.ds)
+        sub = X6.window_result(res, start, w) if res is not None else None
+        out['impl'] = 'ERR:index' if sub is None else canon_impl(sub)
+        out['model'] = ctx.model(['tri ' + cells_line(X6.window_cells(big, start, w))])[0]
+        out['agree'] = out['impl'] == out['model']
+    return out
+# <<< extent and size
 
 
 # ---------------------------------------------------------------------------
@@ -631,6 +875,15 @@ def run(ctx) -> None:
             recipe['vary'] = G.random_vary(rng, 'cf1d')
         one(recipe, items, f'conv:cf1d:bounds-{kind}', history=random_history(rng, 2) if d % 2 else None)
 
+    # >>> fan pipeline translated from the source: the generated term against the real function (drawn last, so the
+    # random stream of every case above stays what it was)
+    fanpipe_cases(ctx, rng, items)
+    # <<<
+
+    # >>> extent and size (a random stream of their own)
+    extent_and_size_cases(ctx, one, items)
+    # <<<
+
     if ctx.searching and ctx.driver is None:
         ctx.evaluated(len(items))
         return
@@ -642,6 +895,15 @@ def replay(ctx, data) -> int:
 
 
 def run_one(ctx, inp: dict) -> dict:
+    if inp.get('op') == 'fanpipe':      # >>> fan pipeline translated from the source
+        polys = [[tuple(v) for v in p] for p in inp['polys']]
+        out = {'polygons': ' | '.join(ring_line(p) for p in polys), 'impl': fanpipe_impl(polys)}
+        if ctx.driver:
+            out['model'] = ctx.model([fanpipe_line(polys)])[0]
+            out['agree'] = out['impl'] == out['model']
+        return out                      # <<<
+    if inp.get('op') == 'big':          # >>> extent and size
+        return run_one_big(ctx, inp)    # <<<
     built = G.build(inp['recipe'])
     G.bind(built)
     cells = truth_cells(built)
@@ -665,6 +927,9 @@ def run_one(ctx, inp: dict) -> dict:
         out['model'] = short(model)
         out['agree'] = impl == model
         k = inp.get('cell')
+        if inp.get('op') == 'tdfaces' and res is not None:      # >>> bookkeeping translated from the source
+            out['impl blocks'] = short(tdfaces_impl(res))
+            out['generated program'] = short(ctx.model(['tdfaces ' + cells_line(cells)])[0])   # <<<
         if k is not None and inp.get('op') in ('convex', 'ears', 'strictconvex', 'fansorted', 'convexcell') and cells[k] is not None:
             p = cells[k]
             line = f"{inp['op']} {ring_line(p)}"
